@@ -150,9 +150,14 @@ type grpcCase struct {
 	// ResyncAll selects how the server answers a subscription (see discsim.Server.ResyncAll). Without it the type of an
 	// endpoint is a function of its address, because a type change made while the client's stream is down cannot reach a
 	// store that compares endpoints by address.
-	ResyncAll bool  `json:"resync_all,omitempty"`
-	Ops       []gop `json:"ops"`
+	ResyncAll bool `json:"resync_all,omitempty"`
+	// Static: the bootstrap also holds one static service (a name discovery never mentions): it must keep running with its
+	// own configuration and hosts whatever happens to the discovered services
+	Static bool  `json:"static,omitempty"`
+	Ops    []gop `json:"ops"`
 }
+
+const staticName = "static-svc"
 
 const nNames = 24 // dependency names; only the first nCore get configurations and endpoints
 const nCore = 5
@@ -254,6 +259,9 @@ func converged(srv *discsim.Server, store *config.Config, ctl *controller.Contro
 	}
 	var have, want []string
 	for n := range view.Services {
+		if n == staticName {
+			continue
+		}
 		have = append(have, n)
 	}
 	for n := range deps {
@@ -336,6 +344,19 @@ func converged(srv *discsim.Server, store *config.Config, ctl *controller.Contro
 			}
 		}
 	}
+	if p := running[staticName]; p != nil {
+		// the static service: untouched
+		if _, ok := view.Services[staticName]; !ok {
+			return "static-service-lost", "the static service is no longer in the store"
+		}
+		if cfgID(p.cfg) != cfgID(mkCfg(6)) || len(p.hosts) != 2 {
+			return "static-service-disturbed", fmt.Sprintf("the static service runs with configuration %s and hosts %v", cfgID(p.cfg), p.hosts)
+		}
+		delete(running, staticName)
+		delete(ctlNames, staticName)
+	} else if _, ok := view.Services[staticName]; ok {
+		return "static-service-lost", "the static service has no running processor"
+	}
 	for n := range running {
 		return "processor-unexpected", fmt.Sprintf("processor %s runs for a service that is not a dependency", n)
 	}
@@ -367,6 +388,10 @@ func checkGrpc(c grpcCase) (inf info, v *verdict) {
 		Admin:               &bootstrap.Admin{Bind: &common.Address{Ip: "127.0.0.1", Port: 1}},
 		Instance:            &common.Instance{Id: "verif-instance", Belong: "verif"},
 		DynamicSourceConfig: &bootstrap.ConfigSource{Endpoint: srv.Addr},
+	}
+	if c.Static {
+		b.StaticServices = []*bootstrap.StaticService{{Name: staticName, Config: mkCfg(6),
+			Endpoints: []*service.Endpoint{mkEp(epRef{Addr: 40}), mkEp(epRef{Addr: 43})}}}
 	}
 	store, err := config.New(b)
 	if err != nil {
@@ -518,6 +543,7 @@ func genEps(t *rapid.T, label string, max int) []epRef {
 func genCase(t *rapid.T) grpcCase {
 	var c grpcCase
 	c.ResyncAll = rapid.Bool().Draw(t, "resync_all")
+	c.Static = rapid.Bool().Draw(t, "static")
 	// usually start with a few complete services so that later steps hit running processors
 	for i, n := 0, rapid.IntRange(0, 3).Draw(t, "init"); i < n; i++ {
 		c.Ops = append(c.Ops, gop{Op: "dep", Add: []int{i}}, gop{Op: "cfg", Svc: i, Cfg: 1 + i}, gop{Op: "eps", Svc: i, EpAdd: []epRef{{Addr: 0}, {Addr: 1, Backup: true}}})
